@@ -322,7 +322,47 @@ def check_x1(ctx):
             ctx.obligations.append(o)
 
 
+OWNED = {  # attribute -> the only functions that may bind it (per class that defines it)
+    "_dispatch_queue": {"__init__"},
+    "_send_queue": {"__init__"},
+    "_receive_buffer": {"__init__"},
+    "_response_queues": {"__init__"},
+    "_incomplete_messages": {"__init__"},
+    "_system_counter": {"__init__", "get_next_system_counter"},
+}
+
+
+def check_owners(ctx, rule="C06.P3"):
+    """What survives a reconnect is created once: the queues, the receive buffer, the table of waiting requesters and the
+    system-byte counter are bound in the constructor only (the counter also in its one advancing function).  A handler
+    that re-creates one of them on connect/start drops queued blocks, waiting requesters or re-issues system bytes that
+    are still outstanding."""
+    repo = ctx.repo
+    n = 0
+    classes = [repo.cls("Protocol")] + repo.subclasses("Protocol") + [repo.cls("ProtocolDispatcher")]
+    for cls in classes:
+        for mname, m in cls.methods.items():
+            for node in walk_no_nested(m.node):
+                targets = []
+                if isinstance(node, ast.Assign):
+                    targets = [t for tt in node.targets for t in ([tt] if not isinstance(tt, (ast.Tuple, ast.List)) else tt.elts)]
+                elif isinstance(node, (ast.AnnAssign, ast.AugAssign)):
+                    targets = [node.target]
+                for t in targets:
+                    d = dotted(t) or ""
+                    if d.startswith("self.") and d[5:] in OWNED:
+                        n += 1
+                        ctx.touch(m)
+                        ok = mname in OWNED[d[5:]]
+                        ctx.ob(rule, m.qualname, ok, f"{d} is bound by its owner" if ok else
+                               f"`{norm(node)[:80]}` re-binds {d} outside {sorted(OWNED[d[5:]])}: what was queued / registered / counted before this point is lost "
+                               "(blocks received before a reconnect are never delivered, a waiting requester gets no reply, system bytes of outstanding requests are issued again)",
+                               key=f"owner {d} in {mname}", where=m.where)
+    ctx.floor("bindings of long-lived protocol state", n, 6)
+
+
 def run(ctx):
+    check_owners(ctx)
     check_counter(ctx)
     check_requests(ctx)
     check_routing(ctx)
